@@ -49,8 +49,13 @@ FmtSeq(F)     == SelectSeq(Fmts, LAMBDA f : f \in F)                  \* sorted(
 (* pattern's names - gitwildmatch base-name / glob patterns match at any   *)
 (* depth and exclude everything below a matched directory.                 *)
 (***************************************************************************)
+(* Negation ("!name"): a pattern whose name set contains the marker "!neg"   *)
+(* re-includes what it matches.  As in gitwildmatch the last pattern of the  *)
+(* list that matches a path decides, so the order of the list matters.       *)
 PatSet(p)        == IF p \in DOMAIN PatNames THEN PatNames[p] ELSE {}
-Ign(R, p, pats)  == \E i \in DOMAIN pats : \E j \in (Len(R) + 1)..Len(p) : p[j] \in PatSet(pats[i])
+NegMark          == "!neg"
+Hits(R, p, pats) == {i \in DOMAIN pats : \E j \in (Len(R) + 1)..Len(p) : p[j] \in PatSet(pats[i]) \ {NegMark}}
+Ign(R, p, pats)  == LET H == Hits(R, p, pats) IN H # {} /\ NegMark \notin PatSet(pats[Max(H)])
 
 (***************************************************************************)
 (* Histories.  hs : [history root path -> Seq(Generation)].                *)
@@ -483,14 +488,16 @@ Unchanged(pre, dk, sealed, R, ign) ==
      LET sd == sealed[S].disk
      IN /\ {p \in DOMAIN sd : Below(R, p) /\ p \notin ign} = NonIgn(dk, R, ign)
         /\ \A p \in NonIgn(dk, R, ign) : sd[p] = dk[p]
+        \* ... everything looked at now was looked at then (a negation pattern can un-ignore a path that was never sealed)
+        /\ NonIgn(dk, R, ign) \cap sealed[S].ign = {}
         \* ... and no history that existed then has been removed since
         /\ \A h \in sealed[S].hroots : BelowEq(R, h) => Len(GensOf(pre, h)) > 0
 \* ghost: sealed[S] = the tree as it was when a folder-mode create at S last exited 0, dropped as
 \* soon as any later run records something in a history above, at or below S
-SealedNext(sealed, dk, W, op, exit, post) ==
+SealedNext(sealed, dk, W, op, exit, post, ign) ==
   LET keep == {S \in DOMAIN sealed : \A h \in W : ~BelowEq(S, h) /\ ~BelowEq(h, S)}
-      \* a seal remembers the tree and the histories that existed below its root
-      seal == [disk |-> dk, hroots |-> {h \in HRoots(post) : BelowEq(op.R, h)}]
+      \* a seal remembers the tree, the histories that existed below its root and what the sealing run ignored
+      seal == [disk |-> dk, hroots |-> {h \in HRoots(post) : BelowEq(op.R, h)}, ign |-> ign]
   IN  IF op.op = "create" /\ exit = 0
       THEN [S \in keep \cup {op.R} |-> IF S = op.R THEN seal ELSE sealed[S]]
       ELSE [S \in keep |-> sealed[S]]
